@@ -75,6 +75,9 @@ class Web(object):
         sched = self.g.sched
         old = sched.explore
         sched.explore = explore
+        if not explore:
+            sched.steps = 0        # the livelock horizon is per request, not per grid
+            del sched.log[:]
 
         class _Done(object):
             def __bool__(s):
